@@ -160,7 +160,9 @@ theorem recvUp_quiet {t : Topo} {s s' : State} {n : Nat} {em : List (Dest × Msg
   split at h
   · split at h
     · cases h
-    · cases h; exact WLe.of_eq rfl rfl rfl
+    · cases h
+      have h0 : Quiet s { s with upOpen := upd s.upOpen n false } := WLe.of_eq rfl rfl rfl
+      exact h0.trans (wle_shutdownNode t (by simpa [State.gone] using hp))
   · rename_i m rest hin
     have hq0 : Quiet s { s with inbox := upd s.inbox n rest } := WLe.of_eq rfl rfl rfl
     have hp0 : ({ s with inbox := upd s.inbox n rest } : State).gone n = false := by
